@@ -156,9 +156,9 @@ def cost_catalogue(n, p, rng, tier):
         dict(name="L2Cost", make=lambda j: L2Cost(param=arr(j)), define=lambda x, j: oracles.l2_cost(x, arr(j)), m=1, q=p, builtin=True,
              functional=True, params=[("optim", None), ("zero", 0.0), ("scalar", 1.5), ("percol", m)]),
         dict(name="GaussianVarCost", make=lambda j: GaussianVarCost(param=pair(j)), define=lambda x, j: gvar_def(x, pair(j)), m=2, q=p,
-             builtin=True, functional=True, params=[("optim", None), ("scalar", [0.0, 1.0]), ("percol", [m, v])]),
+             builtin=True, functional=True, params=[("optim", None), ("scalar", [0.0, 1.0]), ("scalar-nonunit", [0.5, 2.5]), ("percol", [m, v])]),
         dict(name="GaussianCovCost", make=lambda j: GaussianCovCost(param=pair(j)), define=lambda x, j: gcov_def(x, pair(j)), m=p + 1, q=1,
-             builtin=True, functional=True, params=[("optim", None), ("scalar", [0.0, 1.0]), ("percol-matrix", [m, cov])]),
+             builtin=True, functional=True, params=[("optim", None), ("scalar", [0.0, 1.0]), ("scalar-nonunit", [0.5, 2.5]), ("percol-matrix", [m, cov])]),
         dict(name="user:L1Cost", make=lambda j: L1Cost(param=arr(j)), define=lambda x, j: l1_def(x, arr(j)), m=1, q=p, builtin=False,
              functional=True, params=[("optim", None), ("scalar", 0.3), ("percol", m)]),
         dict(name="user:WeirdCost", make=lambda j: WeirdCost(param=j), define=lambda x, j: weird_def(x, j), m=2, q=1, builtin=False,
